@@ -83,7 +83,12 @@ s = s[:i] + "## 8. Seeded changes and which checks catch them\n\n" + \
     "dictionaries paired by position (generators and systems), negative integer selections, single-point separable batches, counts with an inexact " \
     "d-th root, and to models (`match`, `broadcast_arrays`, array-valued `linspace`, `divmod`, reshapes of the concrete axes between named ones). " \
     "Four are not decided (one float-rounding change, three that leave the vocabulary of the mask / loop rules: see section 6); two defects of the " \
-    "unmodified tree reported by the seeders or found while writing the new obligations were repaired (2a4bffc, a7fe902).\n\n" + \
+    "unmodified tree reported by the seeders or found while writing the new obligations were repaired (2a4bffc, a7fe902). " \
+    "Round 5 (`Cxx_r5mK`, 'corner configurations': a 1-6 line oversight in a branch that only a corner configuration exercises - dimension 1 or 3, " \
+    "hyper-networks, separable networks with time, non-cartesian batches, per-facet dictionaries, observed parameters, user tables, validation " \
+    "modules with their own generators, array-valued masks and weights): at first 25 of 60 were not reported by the check of their own property, 15 of " \
+    "them by no check (6 of those exit 2). New obligations are listed at the end of section 3; one change is not decided (a float32 cast, see section 6); " \
+    "one more defect of the unmodified tree was repaired (b0294ed).\n\n" + \
     tab + "\n\nOne candidate was dropped: `C16_m3` (`i <= start_iter` -> `i < start_iter` in `rar_step_false`). It was produced against " \
     "the tree before repair fc78006; on the repaired tree the period counter equals `update_every - 1` at `start_iter`, a non-step at " \
     "`i == start_iter` can then only be caused by a full store, and the change no longer alters any observable count (its demo passes " \
